@@ -400,6 +400,11 @@ func c05Fixpoint(p *Prog, rp *Report) {
 			problems = append(problems, "undecided: non-string rendering")
 			break
 		}
+		// rendering is a query: the parsed value is the same before and after
+		if after := dumpDep(p, st1, d1); after != a {
+			problems = append(problems, fmt.Sprintf("rendering the value parsed from %q changes it: %s became %s", f, a, after))
+			continue
+		}
 		st2, d2, err := parseStr(rendered)
 		if err != "" {
 			problems = append(problems, fmt.Sprintf("%q is accepted and renders as %q, which is %s", f, rendered, err))
